@@ -211,7 +211,9 @@ def linear_cg(
     else:
         # precon_residual{0} = M^-1 residual_{0}
         precond_residual = preconditioner(residual)
-        curr_conjugate_vec = precond_residual
+        # (clone: curr_conjugate_vec is updated in place below, and a preconditioner may return its argument,
+        # in which case it would alias - and corrupt - the residual)
+        curr_conjugate_vec = precond_residual.clone()
         residual_inner_prod = precond_residual.mul(residual).sum(-2, keepdim=True)
 
         # Define storage matrices
